@@ -28,7 +28,7 @@ impl Property for C01 {
     }
     fn cases(&self, tier: Tier) -> u32 {
         match tier {
-            Tier::Quick => 8_000,
+            Tier::Quick => 20_000,
             Tier::Thorough => 300_000,
         }
     }
